@@ -7,6 +7,10 @@ Driver ops of C14, part Gcno (served by `gmodel`):
          <rec> = f<len>,<ident>,<lsum>,<csum> | a<len>(,<counter>)* | o | s (fail short) | r (fail recordLen)
        | hdr D<version> err <kind>            version read, checksum not
        | err <kind> | panic | diverge
+  c14.gcno.crashsite <branch 0|1> <hex gcno> <hex gcda>* ('-' = empty)
+      -> crash <site> (overflow | underflow | idxBlock | idxArc | idxFunc | noArcs | str | idxList)
+         when `computeBytes` ends in a crash, `none` otherwise (review item 31: the harness files a real
+         overflow panic under C14-gcno-counter-overflow only when the model crashes at `overflow`)
 -/
 import GrcovModel.Drv.C15
 namespace Grcov.Drv.C14Gcno
@@ -39,6 +43,22 @@ def handleGcdaRecs (args : List String) : String :=
       | .crash _ => "panic"
       | .diverge => "diverge"
     | none => "bad-op"
+  | _ => "bad-op"
+
+def showSite : Site → String
+  | .overflow => "overflow" | .underflow => "underflow" | .idxBlock => "idxBlock" | .idxArc => "idxArc"
+  | .idxFunc => "idxFunc" | .noArcs => "noArcs" | .str => "str" | .idxList => "idxList"
+
+def handleCrashSite (args : List String) : String :=
+  match args with
+  | br :: gcno :: ds =>
+    let unhex := fun (t : String) => if t = "-" then some [] else fromHex t
+    match unhex gcno, ds.mapM unhex with
+    | some gcno, some ds =>
+      match computeBytes gcno ds (br == "1") with
+      | .crash s => "crash " ++ showSite s
+      | _ => "none"
+    | _, _ => "bad-op"
   | _ => "bad-op"
 
 end Grcov.Drv.C14Gcno
